@@ -4,5 +4,5 @@ From Coq Require Import ExtrOcamlBasic.
 From Coq Require Import List ZArith NArith.
 From Coq.Strings Require Import Byte.
 From Muduo Require Import Base_Bytes Conn_Model C02_Model.
-Extraction "model.ml" C02_Model.step C02_Model.init_sys C02_Model.holders C02_Model.k_inset C02_Model.q_all
+Extraction "model.ml" C02_Model.step C02_Model.init_sys C02_Model.holders C02_Model.k_inset C02_Model.q_all C02_Model.quitting C02_Model.gone
   Base_Bytes.xbyte_of_N Base_Bytes.xN_of_byte Base_Bytes.xanchor.
